@@ -497,10 +497,11 @@ Fixpoint pg_deep_oracle (fuel : nat) (body : list (pg_hid * pg_srec)) (reason : 
     | _, _ => leaf k n
     end.
 
-(* every record on the object is a top-level one or referenced (subrefs) by a top-level one *)
-Definition pg_refs_closed (body : list (pg_hid * pg_srec)) (tops : list pg_hid) : Prop :=
-  forall s, pg_find s body <> None ->
-    In s tops \/ exists k d, In k tops /\ pg_find k body = Some d /\ In s (pg_or (s_subrefs d) []).
+(* every record on the object is a top-level one or referenced (subrefs) by a top-level one;
+   [rec] is the object as a lookup: [fun s => pg_find s body] before a call, [pg_after body patch] after it *)
+Definition pg_refs_closed (rec : pg_hid -> option pg_srec) (tops : list pg_hid) : Prop :=
+  forall s, rec s <> None ->
+    In s tops \/ exists k d, In k tops /\ rec k = Some d /\ In s (pg_or (s_subrefs d) []).
 
 (* an oracle whose writes into the shared patch are all reported as sub-handler references *)
 Definition pg_reports_stores (orc : pg_oracle) : Prop :=
